@@ -311,6 +311,104 @@ def covOf (Es : ((Nat → α) → α) → α) (U W : (Nat → α) → α) : α :
 
 end enumeration
 
+
+/-! ## the loops of `from_algmod`, transcribed literally
+
+A dense array is modelled as the list of the assignments made to it, most recent first, over `numpy.zeros`:
+`getAt` returns the most recent value stored at an index, 0 when the cell was never assigned. -/
+section loops
+variable {β : Type} {ι : Type} [DecidableEq ι]
+
+/-- `M[ix]` -/
+def getAt [Zero β] (M : List (ι × β)) (ix : ι) : β :=
+  match M with
+  | [] => 0
+  | p :: rest => if p.1 = ix then p.2 else getAt rest ix
+
+/-- `M[ix] = v` -/
+def setAt (M : List (ι × β)) (ix : ι) (v : β) : List (ι × β) := (ix, v) :: M
+
+/-- `M *= c` -/
+def scaleAll [Mul β] (M : List (ι × β)) (c : β) : List (ι × β) := M.map (fun p => (p.1, p.2 * c))
+
+variable [Zero β] [Add β]
+
+/-- `for b in blocks: for ix in cells: M[ix] += part(b, ix)` — the chunk loops are the outer loops, the loops over
+    the index tuples (`female`, `male`, …) the inner ones, exactly as in `from_algmod` -/
+def addLoop {B : Type} (blocks : List B) (cells : List ι) (part : B → ι → β) (M : List (ι × β)) : List (ι × β) :=
+  blocks.foldl (fun M b => cells.foldl (fun M ix => setAt M ix (getAt M ix + part b ix)) M) M
+
+end loops
+
+/-- `[(f, m) | f in range(1, n), m in range(0, f)]` (two-way: selfs excluded) -/
+def lowerPairs (n : Nat) : List (Nat × Nat) :=
+  (List.range' 1 (n - 1)).flatMap (fun f => (List.range f).map (fun m => (f, m)))
+
+/-- `[(f, m) | f in range(0, n), m in range(0, f+1)]` (three-way / four-way / dihybrid since fix D33) -/
+def lowerPairsDiag (n : Nat) : List (Nat × Nat) :=
+  (List.range n).flatMap (fun f => (List.range (f + 1)).map (fun m => (f, m)))
+
+/-- `for female in range(1,n): for male in range(0,female): M[male,female] = M[female,male]` -/
+def mirrorLoop {β : Type} [Zero β] (n : Nat) (M : List ((Nat × Nat) × β)) : List ((Nat × Nat) × β) :=
+  (lowerPairs n).foldl (fun M fm => setAt M (fm.2, fm.1) (getAt M (fm.1, fm.2))) M
+
+/-- the chunk blocks `(rst, rsp, cst, csp)` in the order the three nested loops of `from_algmod` visit them -/
+def blocksOf (mem : Option Nat) (chrs : List (Nat × Nat)) : List (Nat × Nat × Nat × Nat) :=
+  chrs.flatMap (fun c =>
+    (chunks c.1 c.2 (mem.getD (c.2 - c.1))).flatMap (fun rc =>
+      (chunks c.1 c.2 (mem.getD (c.2 - c.1))).map (fun cc => (rc.1, rc.2, cc.1, cc.2))))
+
+section loopsSchemes
+variable {α : Type} [Add α] [Sub α] [Mul α] [Div α] [Zero α] [One α]
+
+/-- the two-way `from_algmod`, literally: `numpy.zeros`, the accumulation loops, the mirror loop -/
+def Setup.twoWayLoop (S : Setup α) (n s t : Nat) : List ((Nat × Nat) × α) :=
+  mirrorLoop n
+    (addLoop (blocksOf S.mem S.chrs) (lowerPairs n)
+      (fun b fm => S.part S.D1 (fun i => S.g0 fm.1 i - S.g0 fm.2 i) s t b.1 b.2.1 b.2.2.1 b.2.2.2) [])
+
+/-- the dihybrid `from_algmod`, literally: zeros, accumulation over `male ≤ female`, `*= 0.25`, mirror loop -/
+def Setup.dihybridLoop (S : Setup α) (n s t : Nat) : List ((Nat × Nat) × α) :=
+  mirrorLoop n (scaleAll
+    (addLoop (blocksOf S.mem S.chrs) (lowerPairsDiag n)
+      (fun b fm => S.sixParts (S.g1 fm.1) (S.g0 fm.1) (S.g1 fm.2) (S.g0 fm.2) s t b.1 b.2.1 b.2.2.1 b.2.2.2) [])
+    (1 / four))
+
+/-- the three-way `from_algmod` for one recurrent parent `rc` (the mirror statement copies all `rc` slices at once) -/
+def Setup.threeWayLoop (S : Setup α) (n rc s t : Nat) : List ((Nat × Nat) × α) :=
+  mirrorLoop n (scaleAll
+    (addLoop (blocksOf S.mem S.chrs) (lowerPairsDiag n)
+      (fun b fm =>
+        (two * (S.part S.D1 (fun i => S.g0 fm.1 i - S.g0 rc i) s t b.1 b.2.1 b.2.2.1 b.2.2.2
+              + S.part S.D1 (fun i => S.g0 fm.2 i - S.g0 rc i) s t b.1 b.2.1 b.2.2.1 b.2.2.2))
+        + S.part S.D2 (fun i => S.g0 fm.1 i - S.g0 fm.2 i) s t b.1 b.2.1 b.2.2.1 b.2.2.2) [])
+    (1 / four))
+
+/-- the four-way `from_algmod` for one first hybrid `(f2, m2)` -/
+def Setup.fourWayLoop (S : Setup α) (n f2 m2 s t : Nat) : List ((Nat × Nat) × α) :=
+  mirrorLoop n (scaleAll
+    (addLoop (blocksOf S.mem S.chrs) (lowerPairsDiag n)
+      (fun b fm => S.sixParts (S.g0 f2) (S.g0 m2) (S.g0 fm.1) (S.g0 fm.2) s t b.1 b.2.1 b.2.2.1 b.2.2.2) [])
+    (1 / four))
+
+end loopsSchemes
+
+/-! ## the Spec oracle of the driver (`c12.spec_enum`) -/
+section spec
+variable {α : Type} [Add α] [Sub α] [Mul α] [Neg α] [Zero α] [One α] [LT α] [DecidableLT α]
+
+def absV (x : α) : α := if x < 0 then -x else x
+
+/-- `|impl - want| ≤ tol * max(1, |want|)` -/
+def specClose (impl want tol : α) : Bool :=
+  let scale := if absV want < 1 then 1 else absV want
+  decide (¬ (tol * scale < absV (impl - want)))
+
+end spec
+
+/-- `mem` default of the genetic variance / covariance `from_algmod` -/
+def defaultMem : Nat := 1024
+
 /-! ## usefulness criterion (`UsefulnessCriterionSelectionProblemMixin._calc_uc`) -/
 section uc
 variable {α : Type} [Add α] [Mul α] [Zero α]
